@@ -24,7 +24,8 @@ FLOORS = {'quick': {'__nontrivial__': 400, 'target:sqlite': 800, 'kind:select': 
           'thorough': {'__nontrivial__': 5000, 'kind:select': 15000, 'kind:dml': 3500}}
 N = {'quick': 300, 'thorough': 4000}
 TARGETS = ['sqlite', 'sqlite', 'mysql', 'postgresql']
-CFG = model.Cfg(places={}, always_alias=True)
+CFG = model.Cfg(places={}, always_alias=True, order_by_source=True)
+CFG2 = model.Cfg(places={}, always_alias=False, order_by_source=True)   # un-aliased tables (inner ones may shadow outer ones)
 
 
 def prepare(tier):
@@ -184,7 +185,7 @@ def cases(draw):
     if draw(st.integers(0, 4)) == 0:
         c = draw(dml())
     else:
-        c = draw(model.queries(CFG))
+        c = draw(model.queries(CFG if draw(st.booleans()) else CFG2))
         c['kind'] = 'select'
     c['data'] = draw(model.table_data())
     c['target'] = draw(st.sampled_from(TARGETS))
